@@ -64,6 +64,9 @@ func solveAll(obs []*Oblig, timeoutS int, mode string) {
 	sem := make(chan struct{}, runtime.NumCPU())
 	// scripts are built sequentially (term tables are not thread-safe for construction, reading is)
 	for _, o := range obs {
+		if o.Status != "" {
+			continue // decided by a scan
+		}
 		if o.Cover {
 			if len(o.Hyps) == 0 {
 				o.Status, o.Backend = "proved", "simplifier"
@@ -86,6 +89,15 @@ func solveAll(obs []*Oblig, timeoutS int, mode string) {
 			if inPC {
 				o.Status, o.Backend = "proved", "simplifier"
 				continue
+			}
+		}
+		if !o.Cover {
+			// equality propagation: hypotheses of the form t == const are substituted into the goal
+			if g2 := propagateEqs(o.Hyps, o.Goal); g2 != o.Goal {
+				if g2.IsTrue() {
+					o.Status, o.Backend = "proved", "simplifier"
+					continue
+				}
 			}
 		}
 		var script string
@@ -123,6 +135,59 @@ func solveAll(obs []*Oblig, timeoutS int, mode string) {
 		}(o, script)
 	}
 	wg.Wait()
+}
+
+// propagateEqs substitutes, in goal, every non-constant term t for which a hypothesis t == c (c constant)
+// exists, rebuilding through the simplifying constructors.
+func propagateEqs(hyps []*Term, goal *Term) *Term {
+	sub := map[int]*Term{}
+	for _, h := range hyps {
+		if h.Op == "=" && len(h.Args) == 2 {
+			a, b := h.Args[0], h.Args[1]
+			if b.IsConst() && !a.IsConst() && a.S.K != SArr {
+				sub[a.id] = b
+			} else if a.IsConst() && !b.IsConst() && b.S.K != SArr {
+				sub[b.id] = a
+			}
+		}
+	}
+	if len(sub) == 0 {
+		return goal
+	}
+	memo := map[int]*Term{}
+	var walk func(t *Term) *Term
+	walk = func(t *Term) *Term {
+		if r, ok := sub[t.id]; ok {
+			return r
+		}
+		if r, ok := memo[t.id]; ok {
+			return r
+		}
+		r := t
+		if len(t.Args) > 0 {
+			args := make([]*Term, len(t.Args))
+			changed := false
+			for i, a := range t.Args {
+				args[i] = walk(a)
+				if args[i] != a {
+					changed = true
+				}
+			}
+			if changed {
+				switch t.Op {
+				case "app":
+					r = App(t.Name, t.S, args...)
+				case "select":
+					r = Select(args[0], args[1])
+				default:
+					r = rebuild(t, args)
+				}
+			}
+		}
+		memo[t.id] = r
+		return r
+	}
+	return walk(goal)
 }
 
 // ---------- grouping ----------
